@@ -14,6 +14,7 @@ EMPTY_TEXT = ''
 
 METAS = [
     {'a': 1},
+    {'ratio': 0.1, 'timestamp': 1622688385.12345, 'neg': -2.75, 'whole': 3.0, 'list': [0.5, 100.25, 0.001]},
     {'k': 'é', 'z': [1, None, True, {'q': '\n'}]},
     {'s': '\U0001d11e', 'e': {}, 'l': []},
     {'path': 'src/main.c', 'revision': {'old': 'abc', 'new': 'def'}},
@@ -32,7 +33,7 @@ def rand_json(rng, depth=0):
     """Random JSON value: nested objects/arrays, keys inserted in random order, adversarial strings."""
     r = rng.random()
     if depth >= 3 or r < 0.35:
-        return rng.choice([0, 1, -7, 999999999, True, False, None, '', 'x', 'é', 'a\nb', '\t"\\', '\x7f', '\u2028',
+        return rng.choice([0, 1, -7, 999999999, 0.5, 0.1, -2.75, 3.0, 1622688385.12345, 0.001, True, False, None, '', 'x', 'é', 'a\nb', '\t"\\', '\x7f', '\u2028',
                            '\U0001d11e', '#.meta:', ' '])
     if r < 0.65:
         return [rand_json(rng, depth + 1) for _ in range(rng.randint(0, 3))]
